@@ -16,7 +16,62 @@ STR_KINDS = ["KSingle", "KDouble", "KTripleSingle", "KTripleDouble", "KByteSingl
 QUOTE = {"KSingle": "'", "KDouble": '"', "KTripleSingle": "'", "KTripleDouble": '"', "KByteSingle": "'", "KByteDouble": '"',
          "KTripleByteSingle": "'", "KTripleByteDouble": '"', "KRawSingle": "'", "KRawDouble": '"', "KTripleRawSingle": "'",
          "KTripleRawDouble": '"', "KNational": "'", "KEscaped": "'", "KUnicode": "'", "KHex": "'"}
-ALPHABET = ["'", '"', "`", "\\", "$", "]", "\n", "\x00", "a", "é", "\U0001F600", "t", " "]
+ALPHABET = ["'", '"', "`", "\\", "$", "]", "\n", "\x00", "a", "é", "\U0001F600", "t", " ", "T"]
+
+
+def dollar_scan(text):
+    """Reference re-implementation of the pinned tokenize_dollar_preceded_value (it fixes the
+    class boundary of the dollar-quoted known finding): returns (payload, tag, rest) or None."""
+    assert text[0] == "$"
+    i = 1
+    if i < len(text) and text[i] == "$":
+        i += 1
+        s, prev = "", None
+        while i < len(text):
+            ch = text[i]
+            if prev == "$":
+                if ch == "$":
+                    return (s, None, text[i + 1:])
+                s += "$" + ch
+            elif ch != "$":
+                s += ch
+            prev = ch
+            i += 1
+        return None
+    j = i
+    while j < len(text) and (text[j].isalnum() or text[j] == "_"):
+        j += 1
+    tag = text[i:j]
+    if j >= len(text) or text[j] != "$":
+        return None  # placeholder
+    i = j + 1
+    s = ""
+    while True:
+        k = i
+        while k < len(text) and text[k] != "$":
+            k += 1
+        s += text[i:k]
+        if k >= len(text):
+            return None
+        i = k + 1
+        maybe = "$"
+        ok = True
+        for c in tag:
+            if i >= len(text):
+                return None
+            nc = text[i]
+            i += 1
+            maybe += nc
+            if nc != c:
+                s += maybe
+                ok = False
+                break
+        if not ok:
+            continue
+        if i < len(text) and text[i] == "$":
+            return (s, tag or None, text[i + 1:])
+        s += maybe
+
 
 
 def kinds():
@@ -111,7 +166,10 @@ def classes(k, d, p, tables):
         if "]" in p:
             out.append("verbatim:terminator")
     elif kind == "Dollar":
-        if "$" in p:
+        # class boundary = what the pinned scanner does with the verbatim print
+        printed = ("$%s$%s$%s$" % (k["tag"], p, k["tag"])) if k["tag"] else ("$$%s$$" % p)
+        r = dollar_scan(printed)
+        if "$" in p and (r is None or r[0] != p or r[2] != ""):
             out.append("verbatim:dollar-in-payload")
     return out
 
@@ -126,7 +184,7 @@ def payloads(run):
             ps += ["".join(run.rng.choice(ALPHABET) for _ in range(n)) for _ in range(600)]
     for _ in range(300 if run.tier == "quick" else 3000):
         n = run.rng.randrange(4, 13)
-        ps.append("".join(run.rng.choice(ALPHABET + ["''", '""', "\\'", "\\\\", "$$", "$t$", "'''"]) for _ in range(n)))
+        ps.append("".join(run.rng.choice(ALPHABET + ["''", '""', "\\'", "\\\\", "$$", "$t$", "$T$", "'''"]) for _ in range(n)))
     return list(dict.fromkeys(ps))
 
 
